@@ -164,6 +164,10 @@ def _subst(t, mp):
                 return mp[t]
         except TypeError:
             pass
+        if len(t) >= 4 and t[0] in ("store", "del") and type(t[2]) is tuple and len(t[2]) == 3 and t[2][0] == "attr":
+            # an event `obj.attr = v`: the slot written is not a read of the attribute's old value
+            tgt = ("attr", _subst(t[2][1], mp), t[2][2])
+            return (t[0], t[1], tgt) + tuple(_subst(x, mp) for x in t[3:])
         r = tuple(_subst(x, mp) for x in t)
         # {..."k": v...}["k"] -> v : indexing a dict display by a constant key
         if len(r) == 3 and r[0] == "sub" and is_lit(r[1], "dict") and is_const(r[2]):
